@@ -65,7 +65,9 @@ ASSUMPTIONS = [
     "netqasm's Executor is third-party: Python list indexing makes virtual address -1 an alias of the last slot "
     "of the unit module; the model mirrors it, the oracle stream does not use negative addresses",
     "returned values stay within int32 (the wire format); programs are generated terminating (the real executor "
-    "has no step bound), the model's fuel is 100000 instructions",
+    "has no step bound), the model's fuel is 100000 instructions; the harness stops the real executor after "
+    "10000 instructions / 20 s per message (nqcase.Runner) and reports `nonterminating-subroutine` when the "
+    "reference interpreter, given the same outcomes, ended in at most half as many",
     "measure-directly / remote-state-preparation entanglement requests and wait_* instructions are not modelled "
     "(C08's domain)",
     "the node's register limit is not in the Lean model (NqExec.Node has `cap` only): refusals by it are judged by "
@@ -328,13 +330,18 @@ def exc_suffix(rec):
     return ""
 
 
-def execute(case, gen_rng=None, res=None):
+def execute(case, gen_rng=None, res=None, insn_limit=nqcase.INSN_LIMIT):
     """Run a case on the real code and judge it.  case = {seed, cap, msgs: [...]}; with gen_rng the messages are
     generated on the fly (adapting to the observed allocation state) from case["plan"] and recorded into
-    case["msgs"].  -> (violations [(key, what, index of message)], runner)"""
+    case["msgs"].  -> (violations [(key, what, index of message)], runner)
+    The real executor has no step bound: nqcase.Runner stops a message after `insn_limit` instructions (and after
+    nqcase.WALL_LIMIT seconds); `stopped` below turns that into `nonterminating-subroutine` when the reference
+    ended long before, and into `program-diverges` (no verdict on the code: the program does not end in the
+    reference either) otherwise.  The case ends there."""
     node = "Alice"
     regs = case.get("regs")               # register limit of the node (None: out of reach)
-    runner = nqcase.Runner(["Alice", "Bob"], case["cap"], random.Random(case["seed"]), max_regs=regs)
+    runner = nqcase.Runner(["Alice", "Bob"], case["cap"], random.Random(case["seed"]), max_regs=regs,
+                           insn_limit=insn_limit)
     ref = nqcase.Reference()
     free_regs = (lambda: regs - ref.registers()) if regs is not None else None
     viol = []
@@ -361,6 +368,19 @@ def execute(case, gen_rng=None, res=None):
         msgs.append(m)
         return m
 
+    def stopped(rec):
+        """the harness had to stop the real execution of this message: record the verdict"""
+        if not rec["aborted"]:
+            return False
+        try:
+            key, what = nqcase.judge_abort(refapp, rec)
+        except nqcase.ProgramDiverges as e:
+            key, what = "program-diverges", "the harness stopped the real executor (%s) and cannot judge: %s" % (rec["aborted"], e)
+        if refapp is not None:
+            runner.max_ref_insns = max(runner.max_ref_insns, refapp.executed)
+        viol.append((key, what, idx))
+        return True
+
     while True:
         idx += 1
         m = next_msg()
@@ -369,6 +389,8 @@ def execute(case, gen_rng=None, res=None):
         kind = m[0]
         if kind == "init":
             rec = runner.send(node, "init", app=m[1], maxq=m[2])
+            if stopped(rec):
+                break
             refapp = nqcase.RefApp(ref, m[2], lambda: case["cap"] - held(), free_regs)
             if gen_rng is not None:
                 pg = ProgGen(gen_rng, m[2])
@@ -377,6 +399,8 @@ def execute(case, gen_rng=None, res=None):
                 break
         elif kind == "stop":
             rec = runner.send(node, "stop", app=m[1])
+            if stopped(rec):
+                break
             try:
                 want_ops = refapp.stop(list(rec["outs"]))
             except nqcase.Impossible as e:
@@ -398,6 +422,8 @@ def execute(case, gen_rng=None, res=None):
             refapp = None
         elif kind == "sub":
             rec = runner.send(node, "sub", app=m[1], body=m[2])
+            if stopped(rec):
+                break
             if not rec["quiescent"]:
                 viol.append(("hang", "the node did not become quiescent", idx))
                 break
@@ -407,8 +433,18 @@ def execute(case, gen_rng=None, res=None):
             except nqcase.Impossible as e:
                 viol.append(("impossible-outcome", str(e), idx))
                 break
+            runner.max_ref_insns = max(runner.max_ref_insns, refapp.executed)
             got_replies = [nqcase.show_reply(r) for r in rec["replies"]]
             got_ops = [nqcase.show_op(o) for o in rec["ops"]]
+            if refapp.starved:
+                # not an error of the program: the reference needs an outcome here and the node reported none
+                j = nqcase.first_divergence(got_ops[:len(want_ops)], [nqcase.show_op(o) for o in want_ops])
+                viol.append(("missing-measurement", "`%s` (line %d) measures a qubit in the reference, but the node "
+                             "reported only %d outcome(s) for this subroutine; operations %s, reference up to there %s%s"
+                             % (nqcase.render_instr(rec["prog"][at]), at, len(rec["outs"]), got_ops,
+                                [nqcase.show_op(o) for o in want_ops],
+                                "" if j is None else " (traces part at operation #%d)" % j), idx))
+                break
             if res is not None:
                 res.count("sub:error" if err else "sub:ok")
             if err and rec["prog"][at].mnemonic == "qalloc":
@@ -451,16 +487,21 @@ def execute(case, gen_rng=None, res=None):
 
 
 def shrink(case, key):
-    """smallest case (fewer messages, then fewer lines in the last subroutine) that still shows `key`"""
+    """smallest case (fewer messages, then fewer lines in the last subroutine) that still shows `key`.
+    Deleting lines makes programs that do not terminate (a loop without its counter): the candidates run under a
+    reduced instruction limit (nqcase.shrink_insn_limit), the result is confirmed under the full one."""
+    limit = [nqcase.INSN_LIMIT]
+
     def shows(c):
         try:
-            v, _ = execute(c)
+            v, _ = execute(c, insn_limit=limit[0])
         except Exception:
             return False
         return any(k == key for k, _w, _i in v)
 
     best = dict(case)
-    v, _ = execute(best)
+    v, r0 = execute(best)
+    limit[0] = nqcase.shrink_insn_limit(r0)
     cut = [i for k, _w, i in v if k == key]
     if cut:
         best["msgs"] = best["msgs"][:cut[0] + 1]
@@ -489,6 +530,10 @@ def shrink(case, key):
                 i += 1
         best["msgs"] = best["msgs"][:mi] + [["sub", cur[1], "\n".join(lines)]] + best["msgs"][mi + 1:]
     best.pop("plan", None)
+    limit[0] = nqcase.INSN_LIMIT
+    if not shows(best):                  # only under the reduced limit: keep the case as it was found
+        best = dict(case)
+        best.pop("plan", None)
     return best
 
 
